@@ -649,6 +649,14 @@ func checkMCConj(c mcConjCase, o *kit.Obs) error {
 			return nil
 		}
 	}
+	if !c.Sq {
+		// the lattice lives in the transformed space: a composition of several enlarging maps at a small
+		// spacing asks for billions of cells, which is a cost of the case, not a defect
+		if cells := gen.LatticeCells(joined, m3.V3(solid.Min()), m3.V3(solid.Max()), c.Delta); cells > 4e6 {
+			o.Skip("lattice too large")
+			return nil
+		}
+	}
 	var mesh *model3d.Mesh
 	if c.Sq {
 		ss := toolbox3d.NewSmartSqueeze(toolbox3d.AxisZ, 0.3, 0.02, 0)
